@@ -188,6 +188,7 @@ type c15Sim struct {
 	cloneBusy bool
 	lastPub   [2]int
 	resumeGen int64
+	outerEnd  int64 // upload_end of the in-flight outer request (for inner action steering)
 	trace     []string
 	cls       map[string]bool
 
@@ -477,6 +478,7 @@ func (s *c15Sim) upload(r *c15Req) {
 	if s.depth == 0 {
 		s.world.arm(r.fault)
 		s.hook = r.hook
+		s.outerEnd = r.end
 	}
 	s.pkgCalls = 0
 	rec, crashed := s.serve(s.handler, req)
@@ -769,15 +771,32 @@ func (s *c15Sim) inner(where string) {
 	if c15Uniform(s.rt, "innerLog", 10) == 7 {
 		l = s.logs[1]
 	}
-	opts := []c15W{{"upload", 7}, {"ckpt", 2}, {"probe", 1}, {"crash", 1}}
-	if len(s.loadBearing(l, s.snap(l))) > 0 {
-		opts = append(opts, c15W{"ticketcommit", 5})
+	for n := 0; n < 2; n++ {
+		st := s.snap(l)
+		opts := []c15W{{"upload", 7}, {"ckpt", 2}, {"probe", 1}, {"crash", 1}}
+		if len(s.loadBearing(l, st)) > 0 {
+			opts = append(opts, c15W{"ticketcommit", 5})
+		}
+		if st.hasPend && st.pend > s.outerEnd {
+			opts = append(opts, c15W{"resume", 10}) // a well-behaved client overtakes the in-flight request
+		} else if st.hasPend {
+			opts = append(opts, c15W{"resume", 4})
+		}
+		kind := c15Pick(s.rt, "innerAct", opts...)
+		s.logf("    <at %s: %s>", where, kind)
+		s.innerAct(l, kind, where)
+		if c15Uniform(s.rt, "innerAgain", 3) != 1 {
+			break
+		}
 	}
-	kind := c15Pick(s.rt, "innerAct", opts...)
-	s.logf("    <at %s: %s>", where, kind)
+}
+
+func (s *c15Sim) innerAct(l *c15Log, kind, where string) {
 	switch kind {
 	case "upload":
 		s.upload(s.genUpload(l, ""))
+	case "resume":
+		s.upload(s.genUpload(l, "resume"))
 	case "ticketcommit":
 		s.upload(s.genUpload(l, "ticket"))
 	case "ckpt":
@@ -869,7 +888,7 @@ func (s *c15Sim) genUpload(l *c15Log, force string) *c15Req {
 	if force == "ticket" {
 		r.tkKind = "valid"
 	}
-	if force == "cut" {
+	if force == "cut" || force == "ahead" || force == "resume" {
 		r.tkKind = "none"
 	}
 	pickT := func(c []*c15Ticket) *c15Ticket {
@@ -941,7 +960,7 @@ func (s *c15Sim) genUpload(l *c15Log, force string) *c15Req {
 	if force == "ticket" && r.tk != nil {
 		r.endKind = "ticket"
 	}
-	if force == "cut" {
+	if force == "cut" || force == "ahead" || force == "resume" {
 		r.endKind = "pending"
 	}
 	switch r.endKind {
@@ -975,6 +994,12 @@ func (s *c15Sim) genUpload(l *c15Log, force string) *c15Req {
 	if force != "" {
 		r.stKind = c15Pick(rt, "startKindT", c15W{"next", 14}, c15W{"back", 3}, c15W{"aligned", 3})
 	}
+	switch force {
+	case "ahead":
+		r.stKind = "ahead"
+	case "resume":
+		r.stKind = "next"
+	}
 	if r.stKind == "window" && base < 8*256-1 {
 		r.stKind = "back"
 	}
@@ -990,7 +1015,8 @@ func (s *c15Sim) genUpload(l *c15Log, force string) *c15Req {
 	case "window":
 		r.start = max(0, base-8*256+int64(rapid.IntRange(-1, 1).Draw(rt, "startWindow")))
 	case "ahead":
-		r.start = st.next + rapid.SampledFrom([]int64{1, 255, 256, 256 - st.next%256, 512 - st.next%256}).Draw(rt, "startAhead")
+		up := 256 - st.next%256 // distance to the next tile boundary
+		r.start = st.next + []int64{up, up, up, up + 256, up + 256, 1, 255, 256}[c15Uniform(rt, "startAhead", 8)]
 		if r.start > r.end && c15Uniform(rt, "startPastEnd", 6) > 0 {
 			r.start = r.end
 		}
@@ -1034,6 +1060,9 @@ func (s *c15Sim) genUpload(l *c15Log, force string) *c15Req {
 		r.bodyKind = c15Pick(rt, "bodyKind", bopts...)
 		if force == "cut" && len(pk) > 1 {
 			r.bodyKind = c15Pick(rt, "bodyKindCut", c15W{"cutpkg", 3}, c15W{"cutmid", 2})
+		}
+		if force == "resume" || (r.stKind == "ahead" && c15Uniform(rt, "aheadComplete", 3) > 0) {
+			r.bodyKind = "complete"
 		}
 	}
 	j := 0
@@ -1224,6 +1253,9 @@ func (s *c15Sim) run() {
 		if st.hasPend && st.pend-(st.next-st.next%256) > 256 {
 			opts = append(opts, c15W{"cutupload", 5})
 		}
+		if st.hasPend && st.pend > st.next+256-st.next%256 {
+			opts = append(opts, c15W{"aheadupload", 2})
+		}
 		switch c15Pick(rt, "act", opts...) {
 		case "ckpt":
 			var f *c15Fault
@@ -1243,10 +1275,16 @@ func (s *c15Sim) run() {
 			s.upload(s.genUpload(l, "ticket"))
 		case "cutupload":
 			s.upload(s.genUpload(l, "cut"))
+		case "aheadupload":
+			s.upload(s.genUpload(l, "ahead"))
 		case "probe":
 			s.upload(s.probe(l))
 		case "inter":
-			r := s.genUpload(l, "")
+			force := ""
+			if len(s.loadBearing(l, st)) > 0 && c15Uniform(rt, "interTicket", 2) == 0 {
+				force = "ticket" // the in-flight request targets an older size: it can be overtaken
+			}
+			r := s.genUpload(l, force)
 			r.hook = &c15Hook{at: "pkg", k: 1 + c15Uniform(rt, "hookK", 4)}
 			if c15Uniform(rt, "hookAtCommit", 3) == 0 {
 				r.hook.at = "commit"
